@@ -455,7 +455,7 @@ func runC08(c *ctx) {
 			c.count("err="+classifyRouteErr(err), 1)
 		}
 		c.emit(obj{"op": "route", "grpc": grpc, "md": mdl, "extractor": map[bool]string{true: "custom", false: "default"}[custom],
-			"inv": obj{"pkg": pkg, "svc": svc, "method": method, "toMethod": toMethod},
+			"inv":      obj{"pkg": pkg, "svc": svc, "method": method, "toMethod": toMethod},
 			"listener": lj, "named": nm, "rx": rx, "obs": o})
 	}
 }
